@@ -28,7 +28,7 @@ CONSTANTS
   NSym,            \* alphabet size
   SmapMode,        \* "all" | "canon" (restricted growth strings) | "id"
   RestrMode,       \* "all" subsets | "single" (none + singletons) | "none"
-  QMode,           \* "all" pairs of subsets | "few"
+  QMode,           \* "all" pairs of subsets | "few" (three pairs) | "one"
   Emit             \* print the cases
 
 VARIABLES st, ok
@@ -55,7 +55,8 @@ Restrictions(m) ==
 
 QPairs(m) ==
   IF QMode = "all" THEN (SUBSET (1..m)) \X (SUBSET (1..m))
-  ELSE {<<{1}, 1..m>>, <<1..m, {m}>>, <<{1}, {m}>>}
+  ELSE IF QMode = "few" THEN {<<{1}, 1..m>>, <<1..m, {m}>>, <<{1}, {m}>>}
+       ELSE {<<{1}, {m}>>}
 
 Lens == {<<a>> : a \in MinN..MaxN} \cup
         (IF MaxSeqs >= 2 THEN {<<a, b>> : a \in MinN..MaxN, b \in MinN..MaxN} ELSE {})
